@@ -1,0 +1,14 @@
+//go:build verif
+
+package fs
+
+// WriteFileHookForVerif, when set, is called at the crash points of WriteFile (verification harness, property C32):
+// "close" (data copied into the temporary, before Close), "rename" (before os.Rename onto the destination) and
+// "renamed" (right after a successful os.Rename). The harness panics or kills the process from it.
+var WriteFileHookForVerif func(point, path string)
+
+func verifWriteFileOp(point, path string) {
+	if h := WriteFileHookForVerif; h != nil {
+		h(point, path)
+	}
+}
